@@ -3,6 +3,7 @@ package main
 import (
 	"fmt"
 	"math"
+	"strings"
 
 	"github.com/db47h/decimal"
 )
@@ -112,10 +113,13 @@ func fmaClass(x, y, u cls, mode decimal.RoundingMode) expect {
 }
 
 type oracleC04 struct {
-	cnt map[string]int
+	cnt        map[string]int
+	preLatched bool
 }
 
-func (o *oracleC04) before(c *stepCtx)                               {}
+func (o *oracleC04) before(c *stepCtx) {
+	o.preLatched = c.w.Ctx != nil && ctxLatched(c.w.Ctx)
+}
 func (o *oracleC04) monitor() func(task, op int, site uint32) string { return nil }
 func (o *oracleC04) counters() map[string]int                        { return o.cnt }
 
@@ -134,7 +138,22 @@ func (o *oracleC04) after(c *stepCtx) *ViolationRec {
 		mode = c.pre[op.Z].Mode
 	}
 	cl := func(i int) cls { return clsOf(c.pre[op.A[i]]) }
-	switch op.Name {
+	name := op.Name
+	ctxOp := false
+	if strings.HasPrefix(name, "c.") && ctxArity[name] > 1 || name == "c.Sqrt" {
+		// arithmetic through a Context is the same arithmetic under the context's
+		// rounding mode, as long as no error is pending (then it is a no-op) and the
+		// receiver is not an operand (then it is rounded first, which may change its class)
+		alias := false
+		for _, a := range op.A {
+			alias = alias || a == op.Z
+		}
+		if c.w.Ctx != nil && !o.preLatched && !alias && op.Z >= 0 {
+			name, ctxOp = name[2:], true
+			mode = c.w.Ctx.Mode()
+		}
+	}
+	switch name {
 	case "Add":
 		ex, modelled = sumClass(cl(0), cl(1), mode), true
 	case "Sub":
@@ -189,6 +208,9 @@ func (o *oracleC04) after(c *stepCtx) *ViolationRec {
 		}
 		return nil
 	}
+	if ctxOp && ex.invalid {
+		return nil // the context records the ErrNaN (C19); the receiver's value is undefined
+	}
 	if modelled && ex.invalid {
 		return fail("missing-errnan", "invalid operation did not panic with ErrNaN")
 	}
@@ -204,7 +226,7 @@ func (o *oracleC04) after(c *stepCtx) *ViolationRec {
 		}
 	}
 	// exact cancellation decided from the operands, not from the reported accuracy
-	if ex.zeroSumChecked && (op.Name == "Add" || op.Name == "Sub") {
+	if ex.zeroSumChecked && (name == "Add" || name == "Sub") {
 		a, b := c.pre[op.A[0]], c.pre[op.A[1]]
 		if a.Digits == b.Digits && a.Exp == b.Exp {
 			o.cnt["constructed_exact_cancellations"]++
@@ -220,7 +242,7 @@ func (o *oracleC04) after(c *stepCtx) *ViolationRec {
 		}
 	}
 	// product / quotient sign is the XOR of the operand signs, whatever the magnitudes
-	if op.Name == "Mul" || op.Name == "Quo" {
+	if name == "Mul" || name == "Quo" {
 		want := c.pre[op.A[0]].Neg != c.pre[op.A[1]].Neg
 		o.cnt["xor_sign_checks"]++
 		if post.Neg != want {
